@@ -180,7 +180,7 @@ def _draw_param(rng, name, P, special=0.2):
     if name in ("stddev_x", "stddev_y"):
         return _lu(rng, -4, -1)
     if name == "stddev_waist":
-        return _lu(rng, -4, -2)
+        return _lu(rng, math.log10(2e-5), -2)
     if name == "laser_wavelength":
         return float(rng.uniform(300, 1100))
     if name == "laser_radius":
@@ -276,8 +276,15 @@ def _gen_quad(rng):
         for _ in range(n):
             u = rng.random()
             zs.append(0.0 if u < 0.15 else (float(L) if u < 0.3 else float(rng.uniform(0, L))))
-        if cls == "GaussianBeamAxisymmetric" and 0 <= P["waist_z"] <= L and rng.random() < 0.5:
-            zs[0] = P["waist_z"]
+        if cls == "GaussianBeamAxisymmetric":
+            if rng.random() < 0.6:
+                # axial positions 0..50 Rayleigh ranges on either side of the waist (the waist may lie outside the cylinder);
+                # the Rayleigh range is used for workload placement only (either convention gives the same coverage class)
+                zr = 2 * math.pi * P["stddev_waist"] ** 2 / (P["laser_wavelength"] * 1e-9)
+                u = float(rng.choice([-1, 1])) * (_lu(rng, -1, math.log10(50.0)) if rng.random() < 0.85 else 0.0)
+                P["waist_z"] = float(zs[0] - u * zr)
+            elif 0 <= P["waist_z"] <= L and rng.random() < 0.5:
+                zs[0] = P["waist_z"]
     return dict(kind="quad", cls=cls, params=P, zs=zs, via=_draw_via(rng))
 
 
@@ -632,17 +639,22 @@ def _width(f, r0):
     if not (math.isfinite(f0) and f0 > 0):
         return None
     r = float(r0)
+    best = None
     for _ in range(120):
         v = f(r)
         if not math.isfinite(v) or v < 0:
             return None
         q = v / f0
+        if 0.0 < q < 0.999 and (best is None or abs(q - 0.5) < abs(best[1] - 0.5)):
+            best = (r, q)
         if q > 0.9:
             r *= 2.0
         elif q < 0.05:
             r *= 0.5
         else:
             return r / math.sqrt(-2.0 * math.log(q))
+    if best is not None:          # no sample in [0.05, 0.9] (e.g. a truncated profile): use the best-conditioned ratio seen
+        return best[0] / math.sqrt(-2.0 * math.log(best[1]))
     return None
 
 
@@ -689,6 +701,45 @@ def _quad3(E, zc, sx, sy, sz, ctx):
         w = _trap_w(A.shape[0], h)
         return float(np.einsum("i,j,k,ijk->", w, w, w, A)) * dv
     return integ(V, 1.0), integ(V[::2, ::2, ::2], 2.0), integ(V[4:-4, 4:-4, 4:-4], 1.0)
+
+
+def _quad_polar(E, z, s, ctx):
+    """Fallback for profiles the tensor grid cannot certify (not smooth): polar quadrature, 16 directions x 1200 radii up to
+    12 s.  Returns (integral, error estimate from halving the radial / angular resolution and shrinking the disk)."""
+    nr, na, R = 1200, 16, 12.0 * s
+    h = R / nr
+    r = h * np.arange(nr + 1)
+    cs = [(math.cos(2 * math.pi * a / na), math.sin(2 * math.pi * a / na)) for a in range(na)]
+    V = np.empty((na, nr + 1))
+    for a, (c, sn) in enumerate(cs):
+        row = V[a]
+        for i in range(nr + 1):
+            row[i] = E(r[i] * c, r[i] * sn, z)
+    ctx.mon("energy_density_samples", V.size)
+
+    def integ(A, rr):
+        g = A.mean(axis=0) * rr
+        return float(2 * math.pi * (g.sum() - 0.5 * (g[0] + g[-1])) * (rr[1] - rr[0]))
+    full = integ(V, r)
+    est = abs(full - integ(V[:, ::2], r[::2])) + abs(full - integ(V[::2], r)) + abs(full - integ(V[:, :961], r[:961]))
+    return full, est
+
+
+def _judge_shape(ctx, cls, E, z, sx, sy, far):
+    """the transverse profile at fixed z is the Gaussian with the measured widths: f(0) exp(-x^2/2sx^2 - y^2/2sy^2) out to
+    6 sigma along the axes and diagonals (class documentation; independent of the Rayleigh-range convention)"""
+    f0 = E(0.0, 0.0, z)
+    pts, arg = [], []
+    for k in (0.5, 1.0, 2.0, 3.0, 4.0, 5.0, 6.0):
+        for ux, uy in ((1, 0), (-1, 0), (0, 1), (0, -1), (0.6, 0.8), (-0.8, 0.6), (0.6, -0.8)):
+            pts.append((k * ux * sx, k * uy * sy, z))
+            arg.append(0.5 * k * k * (ux * ux + uy * uy))
+    arg = np.array(arg)
+    ref = f0 * np.exp(-arg)
+    return _judge(ctx, [E(*q) for q in pts], ref, ref * (1e-9 + 1e-12 * arg) + 1e-300,
+                  "shape:%s:transverse-profile-not-gaussian%s" % (cls, ":far-from-waist" if far else ""),
+                  "the energy density across the beam is not f(axis) * exp(-x^2/2sx^2 - y^2/2sy^2) with the widths measured "
+                  "at one sigma (truncated or distorted profile)", "shape", z=z, widths=[sx, sy])
 
 
 def _certified(full, coarse, narrow):
@@ -767,15 +818,27 @@ def _run_quad(case, ctx):
         measured = None not in (sx, sy)
         if not measured:
             sx, sy = g0x, g0y
+        far = cls == "GaussianBeamAxisymmetric" and max(sx, sy) > 1.5 * P["stddev_waist"]
+        ctx.cls("quad-beam:%s" % ("far-from-waist" if far else "near-waist") if cls == "GaussianBeamAxisymmetric" else "quad-bivariate")
+        if measured:
+            _judge_shape(ctx, cls, E, z, sx, sy, far)
+        key = "quad:%s:cross-section-integral%s" % (cls, ":far-from-waist" if far else "")
+        what = "integral of the energy density over the cross-section differs from pulse_energy / (c * pulse_length)"
         full, coarse, narrow = _quad2(E, z, sx, sy, ctx)
         if not _certified(full, coarse, narrow):
-            ctx.skip("quad-unconverged:" + cls)
-            ctx.mon("quad_unconverged")
+            # not a smooth Gaussian: polar quadrature with its own error estimate; judged only when the deviation is
+            # far outside that estimate
+            pfull, est = _quad_polar(E, z, max(sx, sy), ctx)
+            if not (math.isfinite(pfull) and est <= 1e-2 * max(abs(pfull), want)):
+                ctx.skip("quad-unconverged:" + cls)
+                ctx.mon("quad_unconverged")
+                continue
+            ctx.nontrivial()
+            _judge(ctx, pfull, want, QTOL * want + 20.0 * est, key, what, "quad_xsec_polar", z=z, widths=[sx, sy],
+                   widths_measured=measured, quadrature="polar fallback (tensor grid not certified)", error_estimate=est)
             continue
         ctx.nontrivial()
-        _judge(ctx, full, want, QTOL * want, "quad:%s:cross-section-integral" % cls,
-               "integral of the energy density over the cross-section differs from pulse_energy / (c * pulse_length)",
-               "quad_xsec", z=z, widths=[sx, sy], widths_measured=measured)
+        _judge(ctx, full, want, QTOL * want, key, what, "quad_xsec", z=z, widths=[sx, sy], widths_measured=measured)
         if measured and cls == "ConstantBivariateGaussian":
             _judge_widths(ctx, cls, (("stddev_x", sx, P["stddev_x"]), ("stddev_y", sy, P["stddev_y"])))
         elif measured and z == P["waist_z"]:
